@@ -68,6 +68,17 @@ def gen_cases(tier, seed):
                     for kind in ("generic", "symmetric"):
                         yield {"w": "dense", "shape": shape, "groups": groups, "kind": kind, "shuffle_groups": bool(rng.integers(0, 2)), "vals": vals,
                                "cseed": int(seed) * 141650939 % (2 ** 31) + next(cs)}
+    # three or more groups of two or more modes each (order >= 6): the permutation table of the older algorithm is a product over the
+    # groups with a middle factor
+    many = [([2, 2, 2, 2, 2, 2], [[0, 1], [2, 3], [4, 5]]), ([2, 2, 3, 3, 2, 2], [[0, 1], [2, 3], [4, 5]]), ([2, 2, 2, 2, 2, 2], [[0, 5], [1, 3], [2, 4]]),
+            ([2, 2, 2, 1, 2, 2, 2], [[0, 1], [2, 4], [5, 6]])]
+    if tier == "thorough":
+        many += [([2, 2, 2, 2, 2, 2, 2, 2], [[0, 1], [2, 3], [4, 5], [6, 7]]), ([2, 2, 2, 2, 2, 2, 2], [[0, 1, 2], [3, 4], [5, 6]]),
+                 ([3, 3, 2, 2, 2, 2], [[0, 1], [2, 3], [4, 5]])]
+    for shp, groups in many:
+        for kind in ("generic", "symmetric", "almost", "first-group-symmetric", "last-group-symmetric"):
+            yield {"w": "dense", "shape": shp, "groups": groups, "kind": kind, "shuffle_groups": bool(rng.integers(0, 2)),
+                   "cseed": int(seed) * 141650939 % (2 ** 31) + next(cs)}
     # tensors with more than 2^16 elements: symmetric, and symmetric except for one entry whose partner lies at the far end
     for shp, groups in (([300, 300], [[0, 1]]), ([41, 41, 41], [[0, 1, 2]]), ([45, 40, 45], [[0, 2]]), ([17, 17, 17, 17], [[0, 1], [2, 3]])):
         for kind in ("symmetric", "tail-off", "head-off"):
